@@ -5,7 +5,7 @@
    absence of any PyCrash / OutOfFuel outcome, for every string, every separator
    setting, escaped and unescaped parses, and stringification. *)
 From Coq Require Import List Ascii String.
-From YP Require Import Outcome PyStr Generated PathParser PathPrinter ParserStep ParserTotal.
+From YP Require Import Outcome PyStr Generated PathParser PathPrinter ParserStep ParserTotal C14Pairs ParserPairs.
 Import ListNotations.
 Open Scope string_scope.
 
@@ -45,3 +45,45 @@ Proof. vm_compute. reflexivity. Qed.
 
 Example C14_ype_example_bad_index : parse (Forced Slash) false "/a[x]" = Raise (YPE TypeMismatch).
 Proof. vm_compute. reflexivity. Qed.
+
+(* Since the repair of finding F30 (C15): whatever the parser ACCEPTS is made of
+   segments the evaluator has a handler for -- no stored segment is untyped, a
+   COLLECTOR-typed segment carries collector terms, a KEYWORD_SEARCH-typed one
+   keyword terms, a SEARCH-typed one search terms -- for every text, separator
+   setting and escape mode.  Proof: an invariant over the rule chain
+   (Proofs/ParserPairs.v) relating the demarcation stack to collector_level and
+   segment_type. *)
+Theorem C14_collector_segments_have_terms :
+  forall (m : sepmode) (strip : bool) (text : string) (segs : list seg),
+    parse m strip text = Ok segs ->
+    forall ty a, In (ty, a) segs ->
+      ty <> None /\
+      (ty = Some TCollector -> exists op e, a = ACollector op e) /\
+      (ty = Some TKeywordSearch -> exists i k p, a = AKeyword i k p) /\
+      (ty = Some TSearch -> exists i mth attr term, a = ASearch i mth attr term).
+Proof. exact parse_paired_explicit. Qed.
+Print Assumptions C14_collector_segments_have_terms.
+
+(* the computable form used by C15 *)
+Theorem C14_segments_paired :
+  forall (m : sepmode) (strip : bool) (text : string) (segs : list seg),
+    parse m strip text = Ok segs -> segs_paired segs = true.
+Proof. exact parse_paired. Qed.
+Print Assumptions C14_segments_paired.
+
+(* Non-vacuity: an accepted text with every attribute-carrying segment type ... *)
+Example C14_paired_example :
+  parse Auto true "(a)+(b)[max(c)][!d=~/e/].f" =
+  Ok [(Some TCollector, ACollector CNone "a"); (Some TCollector, ACollector CAdd "b");
+      (Some TKeywordSearch, AKeyword false KMax "c"); (Some TSearch, ASearch true MRegex "d" "e");
+      (Some TKey, AStr "f")].
+Proof. vm_compute. reflexivity. Qed.
+
+(* ... and the malformed shapes that used to be accepted with an untyped or
+   mistyped segment (finding F30) are YAML Path errors now. *)
+Example C14_tangles_refused :
+  forall text, In text ["[(a)]"; "a[(b)]"; "(][max(())]"; "[a=(b)]"; "[a='(b)'=c]"; "[a=[b(c)]=d]"; "[max()\])"; "[max('a)]]"] ->
+    parse Auto true text = Raise (YPE Generic) /\ parse Auto false text = Raise (YPE Generic).
+Proof.
+  intros text H; repeat (destruct H as [<-|H]; [vm_compute; split; reflexivity|]); destruct H.
+Qed.
